@@ -471,3 +471,24 @@ CHECKS["C12"]["rule"] = CHECKS["C12"]["rule"] + " || " + _assr_rule
 CHECKS["C13"]["engines"] = CHECKS["C13"]["engines"] + [{"harness": "native", "engine": "assr"}]
 CHECKS["C13"]["classes"] = CHECKS["C13"]["classes"] + ["stream-parent-first", "stream-once", "stream-equals-blocking", "stream-apply", "ssr-panic"]
 CHECKS["C13"]["rule"] = CHECKS["C13"]["rule"] + " || " + _assr_rule
+
+# --- theorems over Model/Assr.lean (delivered by a proof sub-agent)
+AR = "SycVerif.Assr."
+CHECKS["C12"]["lean_modules"] = CHECKS["C12"]["lean_modules"] + ["SycVerif.Props.C12Assr"]
+CHECKS["C12"]["theorems"] += [AR + n for n in ["C12_keys_nodup", "C12_keys_dense", "C12_suspense_keys", "C12_sync_no_suspense", "C12_first_keys", "C12_run", "C12_stream"]]
+CHECKS["C12"]["status"] = ("key discipline and determinism proved for sync rendering of all views (C12_keys …) AND for blocking/streaming rendering over Model/Assr: in every reachable state — any view with "
+                           "Suspense boundaries, async components, dynamic regions and resources, any completion order, any interleaving of stream emissions — the hydration keys are pairwise distinct, "
+                           "those of each suspense scope are exactly 0..n-1 (dense, in creation order), the suspense keys are exactly 1..m (C12_keys_nodup, C12_keys_dense, C12_suspense_keys); "
+                           "byte-identical repeats and constant node counts: the model is a function of view and schedule; the real code is rendered twice with another render in between by the engine")
+CHECKS["C12"]["partial"] = [{"theorem": "C12 isolation across ABANDONED renders", "missing": "a blocking/streaming render dropped half-way leaves its scope on the thread until the next render disposes it; not exercised and not modelled"}]
+CHECKS["C13"]["lean_modules"] = CHECKS["C13"]["lean_modules"] + ["SycVerif.Props.C13Assr"]
+CHECKS["C13"]["theorems"] += [AR + n for n in ["C13_counts", "C13_registered_exists", "C13_blocking_returns_iff_all_done", "C13_settle_complete", "C13_sendReadyK_agrees", "C13_streamAll_world",
+                                                "C13_sendReady_flags", "C13_step_keeps_sent", "C13_stream_once", "C13_stream_sent_iff_emitted", "C13_stream_parent_first", "C13_parent_smaller",
+                                                "C13_stream_parent_before", "C13_fragment_stable", "C13_region_registered", "C13_emitted_fragment_final", "C13_render_pieces", "C13_final_shows",
+                                                "C13_shell_shows", "C13_page_from_fragments", "C13_stream_equals_blocking", "C13_stream_run_equals_blocking"]]
+CHECKS["C13"]["status"] = ("reactive-level statement proved for all trees and all schedules (C13_*), and the SSR clauses proved over Model/Assr: the blocking render returns exactly when no task registered under a "
+                           "boundary is unfinished (C13_counts, C13_blocking_returns_iff_all_done); the stream emits each boundary's fragment at most once (C13_stream_once), never before its parent's "
+                           "(C13_stream_parent_first, C13_stream_parent_before), an emitted fragment is final (C13_emitted_fragment_final, C13_fragment_stable), and once every boundary is sent the page assembled "
+                           "from shell + fragments shows what the blocking render shows (C13_stream_equals_blocking, tree level)")
+CHECKS["C13"]["partial"] = [{"theorem": "string-level application of fragments", "missing": "the client script's splice of a <template> into the document is not formalised; the harness applies the fragments to the real shell text and compares visible content with the real blocking render"},
+                            {"theorem": "order of unrelated fragments within one executor turn", "missing": "follows the scheduling of effects; canonicalised in the correspondence (listed by key), parent-first judged by the oracle on the real order"}]
